@@ -133,11 +133,14 @@ class Driver(BaseDriver):
         """
         self._pre_open_closing_log(closing=True)
 
-        if self.on_close:
-            self.on_close(self)
-
-        self.transport.close()
-        self.channel.close()
+        try:
+            if self.on_close:
+                self.on_close(self)
+        finally:
+            # always release the transport and the channel (log), even if on_close raises -- i.e.
+            # because the device is already gone or the connection timed out
+            self.transport.close()
+            self.channel.close()
 
         self._post_open_closing_log(closing=True)
 
